@@ -75,13 +75,19 @@ def candidates():
                 continue
             if "info!(" in ln or "debug!(" in ln or "trace!(" in ln or "warn!(" in ln or "error!(" in ln or ".help(" in ln or "writeln!" in ln:
                 continue
-            for pat, rep in (OPS2 if os.environ.get("AUTOMUT_SET") == "2" else OPS):
+            for pat, rep in (OPS2 if os.environ.get("AUTOMUT_SET") == "2" else ([] if os.environ.get("AUTOMUT_SET") == "3" else OPS)):
                 for m in re.finditer(pat, ln):
                     if pat in (r" < ", r" > ") and ("->" in ln or "<" in ln and ">" in ln and ("Vec<" in ln or "Option<" in ln or "Result<" in ln or "HashMap<" in ln or "::<" in ln)):
                         continue
                     new = ln[:m.start()] + re.sub(pat, rep, ln[m.start():m.end()]) + ln[m.end():]
                     if new != ln:
                         out.append((rel, i, ln, new, "%s -> %s" % (pat.replace("\\", ""), rep)))
+            if os.environ.get("AUTOMUT_SET") == "3":
+                # set 3: delete any simple one-line statement (assignment, +=, push/insert/extend call)
+                if re.match(r"^\s*(self\.)?[\w\.\[\]\*]+ (\+=|-=|=) [^=].*;$", ln) or re.match(r"^\s*[\w\.]+\.(push|insert|extend|remove|write_all)\(.*\)\??;$", ln):
+                    if not st.startswith("let ") and "=>" not in ln:
+                        out.append((rel, i, ln, ln[:len(ln) - len(ln.lstrip())] + "// (statement removed)", "delete statement"))
+                continue
             for pat in (DELETE if os.environ.get("AUTOMUT_SET") != "2" else []):
                 if re.match(pat, ln):
                     out.append((rel, i, ln, ln[:len(ln) - len(ln.lstrip())] + "// (statement removed)", "delete statement"))
@@ -95,7 +101,7 @@ def make_patch(c, idx, outdir):
     lines2[i] = new
     import difflib
     diff = "".join(difflib.unified_diff([l + "\n" for l in lines], [l + "\n" for l in lines2], "a/" + rel, "b/" + rel, n=3))
-    path = os.path.join(outdir, "%s%04d.diff" % ("B" if os.environ.get("AUTOMUT_SET") == "2" else "A", idx))
+    path = os.path.join(outdir, "%s%04d.diff" % ({"2": "B", "3": "D"}.get(os.environ.get("AUTOMUT_SET"), "A"), idx))
     open(path, "w").write(diff)
     return path
 
